@@ -18,7 +18,7 @@ LEVEL_TEXT = ("zernIndex is compared with Noll's rule enumerated from the defini
 LEVEL_NOTE = "Trusted: scipy.special.eval_jacobi (cross-checked in-run against exact rational radial polynomials), NumPy. The meaning of `rot` is not judged, only its consistent use."
 RULE = "case = (function, j | (n, m), grid size, normalisation, rotation); non-trivial for j >= 2; distinct by parameters"
 ASSUMPTIONS = ["pixel centres at ((i + 1/2) - N/2)/(N/2); x along axis 1; theta = atan2(y, x)", "Gram bound 8 (n_max + 1)/N from the one-pixel edge ring"]
-REQUIRED = ["zernike.py:zernIndex", "zernike.py:zernike_nm", "zernike.py:zernike_noll", "zernike.py:zernikeRadialFunc", "zernike.py:zernikeArray",
+REQUIRED = ["zernike.py:zernIndex", "zernike.py:zernike_nm", "zernike.py:zernike_noll", "zernike.py:zernikeArray",
             "zernike.py:phaseFromZernikes", "zernike.py:makegammas"]
 REQUIRED_COUNTERS = ["noll_indices_checked", "mode_pixels_compared", "gamma_entries_checked_fd", "gamma_points_checked_analytic"]
 EXHAUSTIVE = False
